@@ -307,6 +307,102 @@ func runTcpSrvScenario(sc tcpSrvScenario, seed int) string {
 	return "ok"
 }
 
+// runTcpHighNum: a peer sends, out of the blue, a Block1 block with a block number that needs three option bytes on the
+// wire (4096, 65535+1, 2^20-1), M = 1, 16 bytes.  Nothing is held for the token: the server must acknowledge with 2.31
+// carrying the same number (or refuse); its handler must not be handed the 16 bytes as a body.  Then a Block2 request for
+// such a block of a resource that is long enough (num 4096 of 4100 blocks) must return exactly that slice.
+func runTcpHighNum(num int, seed int) string {
+	const u = 16
+	var mu sync.Mutex
+	var handled [][]byte
+	long := genBody(seed, 0, 4100*u+5)
+	srv := tcp.NewServer(
+		options.WithErrors(func(error) {}),
+		options.WithMessagePool(pool.New(64, 2048)),
+		options.WithPeriodicRunner(func(func(now time.Time) bool) {}),
+		options.WithBlockwise(true, blockwise.SZX16, 5*time.Second),
+		options.WithMaxMessageSize(1152),
+		options.WithHandlerFunc(func(w *responsewriter.ResponseWriter[*tcpclient.Conn], r *pool.Message) {
+			if r.Code() == codes.GET {
+				_ = w.SetResponse(codes.Content, message.TextPlain, bytes.NewReader(long))
+				return
+			}
+			mu.Lock()
+			handled = append(handled, readBody(r))
+			mu.Unlock()
+			_ = w.SetResponse(codes.Changed, message.TextPlain, nil)
+		}),
+	)
+	l := mem.NewListener()
+	served := make(chan struct{})
+	go func() { _ = srv.Serve(l); close(served) }()
+	a, b := net.Pipe()
+	peer := mem.NewTCPPeer(b)
+	defer func() {
+		peer.Close()
+		srv.Stop()
+		<-served
+		synctest.Wait()
+	}()
+	l.Push(&mem.AddrConn{Conn: a, Local: glueAddr("server"), Remote: glueAddr("peer")})
+	synctest.Wait()
+	_ = peer.Write(csmBlockwise())
+	synctest.Wait()
+	peer.TakeFrames()
+	m := pool.NewMessage(context.Background())
+	m.SetCode(codes.PUT)
+	m.SetToken(message.Token{0x99})
+	_ = m.SetPath("/c04/high")
+	v, _ := blockwise.EncodeBlockOption(blockwise.SZX16, int64(num), true)
+	m.SetOptionUint32(message.Block1, v)
+	m.SetBody(bytes.NewReader(genBody(seed, 0, u)))
+	_ = peer.Write(tcpFrame(m))
+	synctest.Wait()
+	code := codes.Empty
+	for _, fr := range peer.TakeFrames() {
+		r := tcpParse(fr)
+		code = r.Code()
+		if r.Code() == codes.Continue {
+			blk, err := r.GetOptionUint32(message.Block1)
+			if err != nil || int(blk>>4) != num {
+				return fmt.Sprintf("violates-2.31-for-block-%d-carries-number-%d", num, int(blk>>4))
+			}
+		}
+	}
+	mu.Lock()
+	n := len(handled)
+	mu.Unlock()
+	if n != 0 {
+		return fmt.Sprintf("violates-handler-got-the-%d-bytes-of-stray-block-%d-as-a-complete-body-answer-code-%d", u, num, int(code))
+	}
+	if num*u < len(long) {
+		q := pool.NewMessage(context.Background())
+		q.SetCode(codes.GET)
+		q.SetToken(message.Token{0x9a})
+		_ = q.SetPath("/c04/high")
+		v2, _ := blockwise.EncodeBlockOption(blockwise.SZX16, int64(num), false)
+		q.SetOptionUint32(message.Block2, v2)
+		_ = peer.Write(tcpFrame(q))
+		synctest.Wait()
+		for _, fr := range peer.TakeFrames() {
+			r := tcpParse(fr)
+			if r.Code() != codes.Content {
+				continue
+			}
+			got := readBody(r)
+			end := (num + 1) * u
+			if end > len(long) {
+				end = len(long)
+			}
+			blk, err := r.GetOptionUint32(message.Block2)
+			if err != nil || int(blk>>4) != num || !bytes.Equal(got, long[num*u:end]) {
+				return fmt.Sprintf("violates-asked-for-block-%d-got-block-%d-%d-bytes", num, int(blk>>4), len(got))
+			}
+		}
+	}
+	return "ok"
+}
+
 func TestC04TcpServer(t *testing.T) {
 	outp := os.Getenv("VERIF_OUT")
 	if outp == "" {
@@ -321,6 +417,22 @@ func TestC04TcpServer(t *testing.T) {
 	w := bufio.NewWriter(f)
 	defer w.Flush()
 	only := os.Getenv("VERIF_SCENARIO")
+	for _, num := range []int{4095, 4096, 4099, 65535, 65536, 1<<20 - 1} {
+		name := fmt.Sprintf("highnum %d", num)
+		if only != "" && name != only {
+			continue
+		}
+		res := "err"
+		synctest.Test(t, func(*testing.T) {
+			defer func() {
+				if r := recover(); r != nil {
+					res = "violates-panic-" + strings.ReplaceAll(fmt.Sprint(r), " ", "_")
+				}
+			}()
+			res = runTcpHighNum(num, seed+num)
+		})
+		fmt.Fprintf(w, "tcpsrv %s result=%s\n", name, res)
+	}
 	for _, dir := range []string{"up", "down"} {
 		for _, nconn := range []int{2, 3} {
 			for _, order := range []string{"lockstep", "pairs", "rotate"} {
